@@ -58,3 +58,66 @@ Example C20_nonvacuous :
   use_tree (fun x => match x with 0 => [1; 2] | 1 => [2; 0] | _ => [0; 1] end) 4 [] 0 = Some 5.
 Proof. vm_compute. repeat split. Qed.
 Print Assumptions C20_nonvacuous.
+
+(* ---- files that INCLUDE each other: the scope graph under INCLUDE resolution *)
+From FV Require Import C20.Forest.
+
+(* every sequence of attach (guarded by ast.encloses) and detach operations, started on a graph
+   without cycles, leaves a graph without cycles -- in the parent links and in the children lists *)
+Theorem include_resolution_keeps_scope_graph_acyclic : forall fuel ops fo,
+  Forest_ok fo -> Forest_ok (fold_left (inc_step fuel) ops fo).
+Proof. intros fuel ops fo H. exact (inc_run_ok fuel ops fo H). Qed.
+Print Assumptions include_resolution_keeps_scope_graph_acyclic.
+
+(* the graphs the parser builds (parents before, children after the object) are such graphs *)
+Theorem parsed_scope_graph_is_acyclic : forall fo,
+  (forall x y, f_parent fo x = Some y -> y < x) -> (forall x y, In y (f_children fo x) -> x < y) -> Forest_ok fo.
+Proof. intros fo H1 H2. split; [apply backwards_acyclic; exact H1|apply forwards_acyclic; exact H2]. Qed.
+Print Assumptions parsed_scope_graph_is_acyclic.
+
+(* the guard itself answers within N * (D + 1) + 2 steps on any graph of N objects with at most D children each *)
+Theorem encloses_terminates : forall N D fo obj scope,
+  (forall x y, f_parent fo x = Some y -> y < N) -> (forall x y, In y (f_children fo x) -> y < N) ->
+  (forall x, length (f_children fo x) <= D) -> obj < N -> scope < N ->
+  encloses fo (N * (D + 1) + 2) obj scope <> None.
+Proof. exact encloses_total. Qed.
+Print Assumptions encloses_terminates.
+
+(* and on the resulting graph the unguarded recursions end: host association / get_implicit climb
+   the parent links, update_fqsn descends the children *)
+Theorem walks_after_include_resolution_terminate : forall N fuel ops fo x,
+  Forest_ok fo ->
+  (forall a b, f_parent (fold_left (inc_step fuel) ops fo) a = Some b -> b < N) ->
+  (forall a b, In b (f_children (fold_left (inc_step fuel) ops fo) a) -> b < N) -> x < N ->
+  walk_unguarded (f_parent (fold_left (inc_step fuel) ops fo)) (N + 1) (Some x) <> None /\
+  fqsn_walk (f_children (fold_left (inc_step fuel) ops fo)) (N + 1) x <> None.
+Proof.
+  intros N fuel ops fo x H Hp Hc Hx. destruct (inc_run_ok fuel ops fo H) as [HP HC]. split.
+  - apply (parent_climb_ends N _ Hp HP (N + 1) [] x); auto; [constructor|intros v []|intros z []].
+  - apply (fqsn_walk_ends N _ Hc HC (N + 1) [] x); auto; [constructor|intros v []|intros z []].
+Qed.
+Print Assumptions walks_after_include_resolution_terminate.
+
+(* without the guard (the pinned tree): a procedure attached to itself, and update_fqsn never returns *)
+Theorem C20_refuted_unguarded_include : exists fo ops x,
+  Forest_ok fo /\ forall fuel, fqsn_walk (f_children (fold_left inc_step_unguarded ops fo)) fuel x = None.
+Proof.
+  exists {| f_parent := fun _ => None; f_children := fun _ => [] |}, [Attach 1 1], 1. split.
+  - split; intros x y H; [discriminate H|destruct H].
+  - induction fuel as [|f IH]; [reflexivity|]. cbn in *. now rewrite IH.
+Qed.
+Print Assumptions C20_refuted_unguarded_include.
+
+(* non-vacuity: f.f90 = {0: top level, 1: d}, g.f90 = {2: top level, 3: e1}, h.f90 = {4: top level, 5: e2};
+   e1 and e2 include f.f90, d includes g.f90: the third attach is refused through the stale child link e1 -> d *)
+Example C20_include_nonvacuous :
+  let fo0 := {| f_parent := fun x => match x with 1 => Some 0 | 3 => Some 2 | 5 => Some 4 | _ => None end;
+                f_children := fun x => match x with 0 => [1] | 2 => [3] | 4 => [5] | _ => [] end |} in
+  let fo2 := fold_left (inc_step 20) [Attach 1 3; Attach 1 5] fo0 in
+  let fo3 := inc_step 20 fo2 (Attach 3 1) in
+  f_parent fo2 1 = Some 5 /\ f_children fo2 3 = [1] /\ f_children fo2 5 = [1] /\
+  encloses fo2 20 3 1 = Some true /\ f_children fo3 1 = [] /\ f_parent fo3 3 = Some 2 /\
+  climb (f_parent fo2) 20 [] 3 (Some 1) = Some false /\
+  fqsn_walk (f_children fo3) 7 0 = Some 2 /\ fqsn_walk (f_children fo3) 7 2 = Some 3.
+Proof. vm_compute. repeat split. Qed.
+Print Assumptions C20_include_nonvacuous.
